@@ -12,6 +12,7 @@ import (
 	"encoding/json"
 	"fmt"
 	"math/rand"
+	"os"
 	"sort"
 	"strings"
 	"time"
@@ -106,11 +107,27 @@ func runDet(seed int64, histories, steps int, out *Emitter) {
 			emitBlock("end", res.Events, cm.Data)
 		}
 		begin(6 * time.Second)
+		blocks := 0
+		nodeRestarts := os.Getenv("VERIF_NODE_RESTART") != ""
 		for i := 0; i < steps; i++ {
 			if r.Intn(4) == 0 {
 				end()
+				blocks++
+				if nodeRestarts && blocks%5 == 3 {
+					// this replica's node process is restarted here (a new application object over the same
+					// database): whatever a node keeps in memory only must not matter
+					c.Reopen()
+				}
 				dt := []time.Duration{6 * time.Second, 6 * time.Second, time.Hour, 24 * time.Hour, 20 * 24 * time.Hour}[r.Intn(5)]
 				begin(dt)
+				if r.Intn(6) == 0 {
+					// a passed parameter-change proposal takes effect in this block (written key by key
+					// through the params subspace, as x/params' proposal handler does)
+					ch := []map[string]int64{{"CollateralPrice": int64(500 + r.Intn(5000))}, {"PricePerTbPerMonth": int64(1 + r.Intn(20))},
+						{"AttestMinToPass": int64(r.Intn(3))}, {"POLRatio": int64(10 + r.Intn(40))}}[r.Intn(4)]
+					err := c.GovSetParams(c.Ctx(), sttypes.ModuleName, ch)
+					out.Emit(map[string]interface{}{"mod": "det", "hist": hi, "kind": "gov", "h": c.H, "change": fmt.Sprint(ch), "err": fmt.Sprint(err)})
+				}
 				continue
 			}
 			var msg sdk.Msg
